@@ -859,15 +859,15 @@ Qed.
 
 (* ---------- flat extents ---------- *)
 Theorem raw_read_sectors_correct sector count :
-  srcs_of (raw_read_sectors 0 sector count) = map flat_src (zseq (sector * 512) (count * 512)).
+  srcs_of (raw_read_sectors 0 0 sector count) = map flat_src (zseq (sector * 512) (count * 512)).
 Proof.
   unfold raw_read_sectors, srcs_of. rewrite SECTOR_eq. simpl. rewrite app_nil_r.
-  replace (sector - 0) with sector by lia. reflexivity.
+  replace (sector - 0 + 0) with sector by lia. reflexivity.
 Qed.
 
 Theorem vmdk_flat_read_correct nsect off len :
   0 <= off < nsect * 512 -> off mod 512 = 0 -> 0 < len ->
-  exists p, vmdk_read (mk_vmdk [XRaw (nsect * 512)]) off len = Ok p /\
+  exists p, vmdk_read (mk_vmdk [XRaw (nsect * 512) 0]) off len = Ok p /\
     let n := Z.min len (nsect * 512 - off) in
     firstn (Z.to_nat n) (srcs_of (plan_of_x p)) = map flat_src (zseq off n).
 Proof.
@@ -878,9 +878,9 @@ Proof.
   set (n := Z.min len (nsect * 512 - off)) in *.
   set (count := (n + 512 - 1) / 512) in *.
   unfold vmdk_read_sectors. cbn [v_offsets v_disks bisect_right skipn Z.of_nat].
-  assert (Hsect : x_sectors (XRaw (nsect * 512)) = nsect).
+  assert (Hsect : x_sectors (XRaw (nsect * 512) 0) = nsect).
   { cbn [x_sectors]. rewrite SECTOR_eq. apply Z.div_mul. lia. }
-  rewrite (walk_single (XRaw (nsect * 512)) (off / 512) count (raw_read_sectors 0 (off / 512) count) Hc
+  rewrite (walk_single (XRaw (nsect * 512) 0) (off / 512) count (raw_read_sectors 0 0 (off / 512) count) Hc
              ltac:(rewrite Hsect; lia) eq_refl).
   eexists. split; [reflexivity|]. cbv zeta. rewrite plan_of_x_single.
   rewrite raw_read_sectors_correct. rewrite Hoffeq.
